@@ -147,4 +147,45 @@ theorem absW_eq_zero_iff (x : W) : absW x = 0#256 ↔ x = 0#256 := by
     · exact absurd ((eq_zero_iff_toNat _).mp h) (absW_ne_zero hx)
   · intro h; subst h; simp [absW, isNeg_zero]
 
+/-- zeros counted down from bit `n-1` of a value below 2^n: `n` for zero, else `n - 1 - ⌊log₂ x⌋` -/
+theorem lzFrom_spec (x : W) : ∀ n, x.toNat < 2 ^ n →
+    lzFrom x n = if x.toNat = 0 then n else n - 1 - Nat.log2 x.toNat := by
+  intro n
+  induction n with
+  | zero =>
+    intro h
+    have : x.toNat = 0 := by omega
+    simp [lzFrom, this]
+  | succ n ih =>
+    intro h
+    unfold lzFrom
+    have hbit : x.getLsbD n = x.toNat.testBit n := rfl
+    rw [hbit]
+    cases hb : x.toNat.testBit n
+    · -- bit n clear: the value is below 2^n
+      have hlt : x.toNat < 2 ^ n := by
+        false_or_by_contra
+        have hge : 2 ^ n ≤ x.toNat := by omega
+        have := Nat.testBit_of_two_pow_le_and_two_pow_add_one_gt hge h
+        rw [hb] at this
+        exact Bool.noConfusion this
+      rw [ih hlt]
+      by_cases h0 : x.toNat = 0
+      · simp [h0]; omega
+      · have hl : Nat.log2 x.toNat < n := (Nat.log2_lt h0).mpr hlt
+        simp only [Bool.false_eq_true, if_false, h0]
+        omega
+    · have hge : 2 ^ n ≤ x.toNat := Nat.ge_two_pow_of_testBit hb
+      have h0 : x.toNat ≠ 0 := by
+        have : 0 < 2 ^ n := Nat.two_pow_pos n
+        omega
+      have hl : Nat.log2 x.toNat = n := (Nat.log2_eq_iff h0).mpr ⟨hge, h⟩
+      simp only [if_true, h0, if_false, hl]
+      omega
+
+theorem leadingZeros_eq (x : W) :
+    leadingZeros x = if x.toNat = 0 then 256 else 255 - Nat.log2 x.toNat := by
+  unfold leadingZeros
+  rw [lzFrom_spec x 256 x.isLt]
+
 end BA.Evm
